@@ -14,6 +14,7 @@ from .types import (
     TBytes,
     TFn,
     TInt,
+    TList,
     TMap,
     TOpt,
     TReal,
@@ -431,7 +432,7 @@ class ExprMixin:
     def lift_like(self, tup, ty):
         if isinstance(ty, TOpt):
             return lift(self.lift_like(tup, ty.elem), ty)
-        if isinstance(ty, TSeq):
+        if isinstance(ty, (TSeq, TList)):
             return lift(tuple(tup), ty)
         if isinstance(ty, TTuple):
             return ty.mk(*tup)
@@ -506,7 +507,7 @@ class ExprMixin:
                 return True if z3.is_true(s) else (False if z3.is_false(s) else v)
             if ty == TInt or ty == TReal:
                 return ~(v == 0)
-            if ty == TStr or isinstance(ty, TSeq):
+            if ty == TStr or isinstance(ty, (TSeq, TList)):
                 return v.length() > 0
             if isinstance(ty, (TSet, TMap)):
                 return ~v.is_empty()
@@ -588,6 +589,16 @@ class ExprMixin:
             if isinstance(ty, TTuple):
                 if isinstance(idx, int):
                     return ty.get(obj, idx if idx >= 0 else len(ty.elems) + idx)
+            if isinstance(ty, TList) and not isinstance(idx, slice):
+                i = lift(idx, TInt)
+                n = obj.length()
+                if isinstance(idx, int) and idx < 0:
+                    ok, pos = n >= -idx, n + idx
+                else:
+                    ok, pos = (i >= 0) & (i < n), i
+                if not self.branch(ok):
+                    raise RaiseEx("IndexError", None, node)
+                return obj[pos]
             if isinstance(ty, (TRec, TRef)):
                 m = self.find_method_for_type(ty, "__getitem__")
                 if m:
@@ -652,6 +663,9 @@ class ExprMixin:
     # ---------------- assignment ----------------
     def assign(self, target, v):
         if isinstance(target, ast.Name):
+            decl = self.declared_local_type(target.id) if self.fn_stack else None
+            if decl is not None and not (isinstance(v, SV) and v.ty == decl):
+                v = self.coerce(v, decl)
             self.set_name(target.id, v)
         elif isinstance(target, (ast.Tuple, ast.List)):
             vals = self.unpack(v, len(target.elts), target)
